@@ -187,11 +187,11 @@ def run_history(system, h, memo):
 def element_order_pairs(tier):
     """paired answers under element orders; returns list of (label, events)"""
     orders = [["NI", "CR", "AL"], ["NI", "AL", "CR"]]
-    if tier == "thorough":
-        orders.append(["AL", "CR", "NI"])
+    # (an order with another FIRST element changes the dependent element, which C11 does not speak about: interdiffusivities
+    #  are defined relative to it; the thorough tier therefore deepens points and methods, not the set of orders)
     base = orders[0]
     comp = {"NI": None, "CR": 0.08, "AL": 0.10}
-    pts = [dict(CR=0.08, AL=0.10), dict(CR=0.10, AL=0.08), dict(CR=0.01, AL=0.01)] + ([dict(CR=0.05, AL=0.12)] if tier == "thorough" else [])
+    pts = [dict(CR=0.08, AL=0.10), dict(CR=0.10, AL=0.08), dict(CR=0.01, AL=0.01)] + ([dict(CR=0.05, AL=0.12), dict(CR=0.15, AL=0.05), dict(CR=0.02, AL=0.16)] if tier == "thorough" else [])
     methods = ["tangent", "sampling", "approximate", "curvature"]
     out = []
     for order in orders[1:]:
